@@ -491,6 +491,9 @@ def run(prog, tier):
     # points in each frame = POINT:USED needs every frame to receive the same columns
     import p_c06
     p_c06.column_rules(prog, res, rule='column-uniform')
+    # "points in each filled frame" is one number only while stored frames share nothing with each other or with the caller
+    import p_c08
+    p_c08.ownership_rules(prog, res, rule_prefix='frames-independent')
     # reload: every frame is filled with the header's point / channel / sub-frame counts
     CR.frame_reader_rule(prog, res, 'reload-shape')
     # the header fields are brought into agreement through the header's own setters
